@@ -145,6 +145,7 @@ func (c18) Plan(tier string, seed int64) []mon.Workload {
 		{Name: "many-locals", N: manyLocalsN(), Exhaustive: true},
 		{Name: "computed-keys", N: int64(len(c04KeyStmts) * len(c04KeyWraps)), Exhaustive: true},
 		{Name: "operator-trees", N: n / 2},
+		{Name: "deep-run", N: int64(len(c01DeepKinds) * len(c01DeepLevels)), Exhaustive: true},
 	}
 }
 
@@ -273,6 +274,9 @@ func (c18) build(c *mon.Ctx, workload string, i int64) c18Case {
 	}
 	if workload == "many-locals" {
 		return c18Case{Stmts: manyLocalsProgram(i), Cell: ""}
+	}
+	if workload == "deep-run" {
+		return c18Case{Stmts: c01DeepRun(i), Cell: ""}
 	}
 	if workload == "computed-keys" {
 		return c18Case{Stmts: c04ComputedKeys(i).Stmts, Cell: ""}
